@@ -1,3 +1,4 @@
+From Coq Require Import NArith.
 (* Run/RunC04.v — correspondence for C04: the marker trace and the completion observed on
    the implementation for a rendered skeleton program, against the Spec (and, as a
    safeguard, against the model of the repaired code, which Props/C04 proves equal to it).
@@ -5,7 +6,7 @@
 From Ecal Require Import Model.ControlSyntax Model.Control Spec.ControlSpec Proofs.ControlProofs.
 
 Record case := mkCase {
-  c_id : nat;
+  c_id : N;
   c_prog : block;          (* the skeleton program *)
   c_trace : trace;         (* implementation: events in order *)
   c_compl : compl          (* implementation: how Runtime.Eval ended *)
@@ -87,7 +88,7 @@ Definition verdict (c : case) : nat :=
     else 2
   end%nat.
 
-Definition check_all (cs : list case) : list (nat * nat) :=
+Definition check_all (cs : list case) : list (N * nat) :=
   filter (fun p => negb (Nat.eqb (snd p) 0)) (map (fun c => (c_id c, verdict c)) cs).
 
 Definition spec_out (c : case) : result := sprog FUEL (c_prog c).
